@@ -12,6 +12,8 @@ pub fn run(name: &str) {
             "bool_null_index" => bool_null_index().await,
             "merge_null" => merge_null().await,
             "del_null" => del_null().await,
+            "validate" => validate_probe().await,
+            "btree_range" => btree_range_probe().await,
             "c16_limit" => c16_limit_probe().await,
             "merge_partial" => merge_partial().await,
             "limit_stable" => { limit_stable(true).await; limit_stable(false).await },
@@ -192,4 +194,40 @@ pub async fn c16_limit_probe() {
         if let Some(l) = lim { sc2.limit(Some(l), None).unwrap(); }
         println!("limit {lim:?}: {} rows; plan {}", b.iter().map(|b| b.num_rows()).sum::<usize>(), sc2.explain_plan(false).await.unwrap().replace('\n', " | "));
     }
+}
+
+pub async fn btree_range_probe() {
+    let cfg = TableCfg { cols: vec![(2, false)], stable_row_ids: false, storage: 1, v2_manifest: false, handler: 0 };
+    let store = VStore::new();
+    let mut w = World::create(store, "t", &cfg, &[RowSeed(vec![24, 0, 0, 0, 0, 0])], 3).await.unwrap();
+    let mut obs = crate::engine::Obs::default();
+    for _ in 0..2 {
+        let _ = w.apply(&Step { op: Op::Append { rows: vec![RowSeed(vec![0; 6])], splits: vec![], max_rows_per_file: 3 }, stale: None }, &mut obs).await;
+    }
+    let _ = w.apply(&Step { op: Op::CreateIndex { col: 0, kind: 0, replace: false }, stale: None }, &mut obs).await;
+    println!("rows: {:?}", w.state().rows.iter().map(|r| (r.uid, r.vals[0].short())).collect::<Vec<_>>());
+    for f in ["(c0 < 1) AND (c0 >= 0)", "c0 >= 0 AND c0 < 1", "c0 < 1", "c0 >= 0", "c0 = 0", "c0 BETWEEN 0 AND 0", "(c0 < 1) AND (c0 > -1)"] {
+        let a = filtered_uids(&w.ds, f, true).await;
+        let b = filtered_uids(&w.ds, f, false).await;
+        let mut sc = w.ds.scan();
+        sc.filter(f).unwrap();
+        println!("{f:30} indexed={a:?} unindexed={b:?} plan={}", sc.explain_plan(false).await.unwrap().replace('\n', " | "));
+    }
+}
+
+pub async fn validate_probe() {
+    let p = std::path::Path::new("/verif/replays/C05/viol-e26325a5b232b453.json");
+    let input: crate::props::hist::HistInput = crate::engine::read_replay(p).unwrap();
+    let store = VStore::new();
+    let mut w = World::create(store, "t", &input.cfg, &input.initial, input.init_file_rows as usize).await.unwrap();
+    let mut obs = crate::engine::Obs::default();
+    for s in &input.steps {
+        let r = w.apply(s, &mut obs).await;
+        println!("{} -> {:?}", s.op.kind(), r.is_ok());
+        println!("  schema: {:?}", w.ds.schema().fields.iter().map(|f| (f.name.clone(), f.id)).collect::<Vec<_>>());
+        for f in w.ds.manifest().fragments.iter() {
+            println!("  frag {} files {:?}", f.id, f.files.iter().map(|d| (d.path.clone(), d.fields.clone())).collect::<Vec<_>>());
+        }
+    }
+    println!("validate: {:?}", w.ds.validate().await.map_err(|e| e.to_string()));
 }
